@@ -177,6 +177,11 @@ type fidRef struct {
 	// The node above will be closed only when refs reaches zero.
 	refs int64
 
+	// openMu serializes Tlopen requests on this fidRef, so that the check of
+	// opened, the call to File.Open and the update of opened are one step
+	// with respect to another Tlopen in flight on the same fid.
+	openMu sync.Mutex
+
 	// opened indicates whether this has been opened already.
 	//
 	// This is updated in handlers.go.
